@@ -94,6 +94,8 @@ def gen_plan(seed, index, tier):
         qs = rng.sample(QUANTS, rng.randint(1, 4))
         if rng.random() < 0.6:
             qs.sort()
+        if rng.random() < 0.15:
+            qs.insert(rng.randint(0, len(qs)), rng.choice(qs))  # a repeated quantile is legal: one entry per *requested* quantile
         n_boot = rng.choice([1, 2, 3, 5, 8, 13, 25])
         if rare:
             n_boot = rng.choice([2, 2, 3, 3, 4])
@@ -252,6 +254,8 @@ def execute(plan, ctx):
                 continue
             with np.errstate(invalid="ignore"):
                 viol = lo > hi + 1e-12
+                if qs[a] == qs[b]:
+                    viol = viol | (hi > lo + 1e-12)
             if viol.any():
                 ctx.fail("C18.ci_order", f"{name}_ci: entry for q={qs[a]} exceeds entry for q={qs[b]}: {lo[viol][:3]} > {hi[viol][:3]}")
                 break
